@@ -782,7 +782,6 @@ func planElems(m *Model, n *types.Named) []EncElem {
 	return out
 }
 
-
 // skipsPopulated: the emission `call` of receiver field f sits under a guard; returns a reason when some way around the
 // emission does not imply that f is empty (zero, nil, "", length 0).
 func skipsPopulated(call *ssa.Call, f *types.Var) string {
